@@ -22,7 +22,10 @@ EXTENDS Integers, Sequences, FiniteSets, TLC, Json
 CONSTANTS Cmds,          \* subset of the command names above
           Kinds,         \* subset of {"pipe", "tx", "txwatch", "txconflict", "txstale"}; "txstale" = "txwatch" preceded on the
                          \* same adapter by a Watch(fn) whose fn sent no EXEC and by a write to the key it watched
-          Apis,          \* subset of {"exec", "fn"}: Exec called explicitly / through Pipelined(fn)
+          Apis,          \* subset of {"exec", "fn", "oexec", "ofn"}: Exec called explicitly / through Pipelined(fn); "o..." = the
+                         \* same through the secondary entry points of an explicit pipeline OBJECT (p := TxPipeline(); p.TxPipelined(fn)
+                         \* resp. p.TxPipeline() then Exec; Pipelined / Pipeline() for a plain pipeline): a pipeline object keeps its
+                         \* kind whatever entry point runs it, so the behaviour is that of "fn" / "exec"
           MaxQueued,     \* total number of Queue operations
           MaxExecs, MaxDiscards,
           BugMultiAfter, \* MULTI appended after the queue instead of moved to the front
@@ -122,7 +125,7 @@ Init == /\ kind \in Kinds /\ api \in Apis /\ q = <<>> /\ store = Store0 /\ nq = 
         /\ conflicted = FALSE /\ last = NoOutcome /\ prog = <<>>
 
 Record(o) == last' = o /\ prog' = Append(prog, o)
-Done == (api = "fn" /\ nex = 1) \/ nex = MaxExecs
+Done == (api \in {"fn", "ofn"} /\ nex = 1) \/ nex = MaxExecs
 
 \* another client writes the watched key after WATCH and before EXEC (kind "txconflict": exactly once, first)
 Conflict == /\ kind = "txconflict" /\ ~conflicted /\ prog = <<>>
